@@ -28,11 +28,11 @@ PROPS = {
         "assumptions": ["the listing file is decoded by the generic protobuf runtime in the harness"],
     },
     "C04": {
-        "suites": [faults.FaultSend, faults.FaultSync],
+        "suites": [faults.FaultSend, faults.FaultSync, sync.SwapRace],
         "assumptions": ["'bounded time' = returns within 3 s of wall clock after the harness tears the stream down; environment calls (reads, callbacks) return"],
     },
     "C08": {
-        "suites": [sync.SchedSuite, sync.RaceSuite],
+        "suites": [sync.SchedSuite, sync.RaceSuite, sync.SwapRace],
         "assumptions": ["'no data race' is a statement about the Go memory model, not expressible in the Lean model: it is decided by the Go race detector on the executed schedules (suite 'race'), i.e. by search, not by a theorem; the overlap detector decides 'no two SendMsg/RecvMsg in flight'"],
     },
     "C03": {
